@@ -15,6 +15,7 @@ mod s6_memory;
 mod life;
 mod s7_lifecycle;
 mod s8_storage;
+mod s9_entrypoints;
 
 use framework::*;
 
@@ -50,10 +51,12 @@ fn plan(ctx: &mut CheckCtx, k: f64) {
             ctx.run::<s1_filters::S1>(n(300_000));
             ctx.run::<s2_replicas::S2>(n(50_000));
             ctx.run::<s1l_bigfilters::S1L>(n(600));
+            ctx.run::<s9_entrypoints::S9>(n(20_000));
         }
         "C02" => {
             ctx.required_probes = vec!["row_collision", "net_reorder", "net_duplicate", "node_restart", "converged"];
             ctx.run::<s2_replicas::S2>(n(100_000));
+            ctx.run::<s9_entrypoints::S9>(n(10_000));
         }
         "C06" => {
             ctx.required_probes = vec!["net_reorder", "net_duplicate", "net_drop", "net_partition", "net_partition_blocked_delivery", "node_restart", "full_union", "converged", "algebra_commutativity", "algebra_associativity", "algebra_idempotence", "via_json_bytes"];
@@ -68,10 +71,12 @@ fn plan(ctx: &mut CheckCtx, k: f64) {
             ctx.required_probes = vec!["cluster_wrap", "cluster_ge3_runs", "insert_head_of_run", "insert_middle_of_run", "insert_tail_of_run", "table_full"];
             ctx.run::<s1_filters::S1>(n(300_000));
             ctx.run::<s1l_bigfilters::S1L>(n(600));
+            ctx.run::<s9_entrypoints::S9>(n(5_000));
         }
         "C14" => {
             ctx.run::<s1_filters::S1>(n(150_000));
             ctx.run::<s1l_bigfilters::S1L>(n(600));
+            ctx.run::<s9_entrypoints::S9>(n(5_000));
         }
         "C04" => {
             ctx.run::<s4_digest::S4>(n(6_000));
@@ -90,6 +95,7 @@ fn plan(ctx: &mut CheckCtx, k: f64) {
         "C10" => {
             ctx.required_probes = vec!["inflated_newcomer_while_heap_has_room", "collision_free_prefix", "prefix_with_sketch_error"];
             ctx.run::<s5_topk::S5b>(n(60_000));
+            ctx.run::<s9_entrypoints::S9>(n(10_000));
         }
         "C11" => {
             ctx.required_probes = vec!["measurements", "growth_comparisons", "node_restart", "full_insert"];
@@ -107,6 +113,7 @@ fn plan(ctx: &mut CheckCtx, k: f64) {
         "C17" => {
             ctx.required_probes = vec!["net_reorder", "net_duplicate", "via_add", "rest_all_zero"];
             ctx.run::<s2h_hll::S2h>(n(100_000));
+            ctx.run::<s9_entrypoints::S9>(n(10_000));
         }
         "C05" => {
             // one evaluation = one (k, n) cell = a batch of sampler runs; the grid is fixed per tier
@@ -148,6 +155,7 @@ fn replay(path: &str) -> i32 {
         "S7-lifecycle" => replay_case::<s7_lifecycle::S7>(&doc, prop),
         "S6-memory" => replay_case::<s6_memory::S6>(&doc, prop),
         "S1L-filter-node-large" => replay_case::<s1l_bigfilters::S1L>(&doc, prop),
+        "S9-entry-points" => replay_case::<s9_entrypoints::S9>(&doc, prop),
         "S4-digest" => replay_case::<s4_digest::S4>(&doc, prop),
         "S3a-reservoir-invariants" => replay_case::<s3_reservoir::S3a>(&doc, prop),
         "S3b-reservoir-uniformity" => replay_case::<s3_reservoir::S3b>(&doc, prop),
